@@ -265,6 +265,9 @@ QUICK = [
     ("c13", "herald2_desc", (F(1), F(0), True), "none", 2),
     ("c14", "herald1_lossy", (F(1), F(0), True), "none", 2),
     ("c15", "herald1_lossy", (F(1), F(0), False), "none", 1),
+    # the end of the efficiency range: every photon lost, only dark counts are ever detected
+    ("c16", "plain3", (F(0), F(1, 4), True), "none", 1),
+    ("c17", "herald0_inout", (F(0), F(1, 8), False), "none", 0),
 ]
 
 
